@@ -875,14 +875,15 @@ Definition resize (s : st) (w h : Z) : result st :=
   Ok (init_tabstops s true).
 
 (* TermCanvas.content() *)
+(* scrollback lines keep the width they had when they were scrolled out: padded / cut to the current width *)
+Definition fit_line (s : st) (line : row) : row :=
+  let padding := width s - zlen line in
+  if 0 <? padding then line ++ repeatz (empty_char s [32]) padding else takez (width s) line.
 Definition content (s : st) : list row :=
   if sup s =? 0 then term s else
   let buf := sb s ++ term s in
   let '(a, b, _) := slice_indices (zlen buf) (Some (- (height s + sup s))) (Some (- sup s)) None in
-  (* scrollback lines keep the width they had when they were scrolled out: pad / cut to the current width *)
-  map (fun line : row => let padding := width s - zlen line in
-                         if 0 <? padding then line ++ repeatz (empty_char s [32]) padding else takez (width s) line)
-      (takez (b - a) (dropz a buf)).
+  map (fit_line s) (takez (b - a) (dropz a buf)).
 
 (* Terminal.change_focus's effect on the canvas *)
 Definition set_focus (s : st) (f : bool) : st := set_term_cursor_here (with_has_focus s f).
